@@ -136,10 +136,10 @@ func SetPool(p string) {
 // enormous compared to an evaluation (<1 ms): on a machine that is oversubscribed many
 // times over, a starved process must never be taken for a deadlocked one. A real
 // deadlock hangs for any guard.
-var HangGuard = 150 * time.Second
+var HangGuard = 60 * time.Second
 
 // LeakGrace is how long free-mode runs wait for engine goroutines to terminate.
-var LeakGrace = 90 * time.Second
+var LeakGrace = 60 * time.Second
 
 // SlowRuns counts executions that needed more than 5 s of wall time (starvation).
 var SlowRuns int64
